@@ -181,6 +181,23 @@ def generate(rng, n, tier):
         script, srcs, kind = m
         yield {"script": script, "cls": cls, "kind": kind, "sources": [[s.var, s.name, s.kind] for s in srcs],
                "tables": [[s.table, list(s.schema)] for s in srcs if s.kind == "table" and s.table]}
+    # the same table twice in one statement (a second Table object of the same name, no alias): the two row sources
+    # need different in-statement names, in SELECT, UPDATE … JOIN and DELETE alike
+    for j in range(max(30, n // 40)):
+        cls = rng.choice(classes)
+        qn = QNAMES[cls]
+        sch = rng.choice(["", "", ", schema='sc'"])
+        lines = ["t1 = T('emp'%s)" % sch, "t2 = T('emp'%s)" % sch]
+        how = rng.choice([".on(t1.c_t1_0 == t2.c_t2_1)", ".on((t1.c_t1_0 == t2.c_t2_1) & (t2.c_t2_2 > 1))", ".cross()"])
+        form = rng.choice(["select", "select", "update", "update", "select_where"])
+        if form == "select":
+            lines.append("q = %s.from_(t1).join(t2)%s.select(t1.c_t1_0, t2.c_t2_0, t2.c_t2_2)" % (qn, how))
+        elif form == "select_where":
+            lines.append("q = %s.from_(t1).select(t1.c_t1_0).join(t2, JoinType.left)%s.where(t2.c_t2_2 == t1.c_t1_2).select(t2.c_t2_0)" % (qn, how))
+        else:
+            lines.append("q = %s.update(t1).join(t2)%s.set(t1.c_t1_1, t2.c_t2_1).where(t2.c_t2_0 > t1.c_t1_0)" % (qn, how))
+        yield {"script": "\n".join(lines), "cls": cls, "kind": "update_join" if form == "update" else "self-join",
+               "sources": [["t1", "emp", "table"], ["t2", "emp", "table"]], "tables": []}
     # several un-aliased sub-queries in one FROM / JOIN list, some of them containing un-aliased sub-queries themselves
     # (their own counter is non-zero): the invented names of one list must be pairwise distinct
     for j in range(max(40, n // 25)):
@@ -270,6 +287,17 @@ def examine(case):
     for var, name, kind in case["sources"]:
         obj = env[var]
         names[var] = obj.alias if getattr(obj, "alias", None) else (name if kind == "table" else obj.alias)
+    # different row sources of the generated statements never share an in-statement name: a reference qualified by a name
+    # that two sources carry resolves to neither of them in particular
+    byname = {}
+    kinds = {var: kind for var, _, kind in case["sources"]}
+    for var, nm in names.items():
+        if kinds.get(var) == "table":       # invented sub-query names have their own check (and listed finding) below
+            byname.setdefault(nm, []).append(var)
+    dup = {nm: vs for nm, vs in byname.items() if nm is not None and len(vs) > 1}
+    if dup:
+        F("sources-share-a-name", "row sources %s are all called %r in the statement" % (sorted(dup.values())[0], sorted(dup)[0]))
+        return res
     nq = 0
     srcs_seen = set()
     depth_at = []
